@@ -22,7 +22,7 @@ ENV = dict(os.environ, GOFLAGS="-mod=mod", GOPROXY="off", GOSUMDB="off", GOTOOLC
 CHECKS = {
     "writer.go": ["C01", "C14", "C02", "C11", "C07"],
     "block.go": ["C01", "C02", "C14", "C18"],
-    "record.go": ["C01", "C14", "C02", "C11"],
+    "record.go": ["C01", "C14", "C02", "C11", "C18"],
     "reader.go": ["C02", "C01", "C11", "C03", "C18"],
     "merged.go": ["C03", "C11", "C07"],
     "iter.go": ["C11", "C03"],
@@ -208,5 +208,24 @@ if __name__ == "__main__":
         gen()
     elif a[0] == "run":
         run(int(a[1]) if len(a) > 1 else 100, int(a[2]) if len(a) > 2 else 6)
+    elif a[0] == "recheck":
+        # re-run survivors of the given files against one more check (e.g. after the mapping was extended)
+        check, files = a[1], a[2:]
+        rs = [json.loads(l) for l in open(os.path.join(OUT, "results.jsonl"))]
+        out = []
+        for r in rs:
+            if r["status"] == "survived" and r["file"] in files and check not in r.get("checks", {}):
+                saved = CHECKS[r["file"]]
+                CHECKS[r["file"]] = [check]
+                r2 = run_one({k: r[k] for k in ("file", "line", "op", "old", "new", "id")})
+                CHECKS[r["file"]] = saved
+                r["checks"].update(r2.get("checks", {}))
+                if r2["status"] in ("detected", "inconclusive"):
+                    r["status"], r["detected_by"] = r2["status"], check
+                print(r["id"], r["file"], r["line"], r["op"], "->", r["status"], flush=True)
+            out.append(r)
+        with open(os.path.join(OUT, "results.jsonl"), "w") as f:
+            for r in out:
+                f.write(json.dumps(r) + "\n")
     elif a[0] == "report":
         report()
